@@ -127,6 +127,93 @@ Example C07_downscoped_nonvacuous :
   /\ keys (release_tok pm m (Some cl) (PS "userinfo") [] None [PS "openid"; PS "email"] [] ui) = [PS "name"; PS "email"].
 Proof. vm_compute. split; reflexivity. Qed.
 
+(* ---- ID Tokens minted by the AUTHORIZATION endpoint (response types id_token, code id_token, id_token token,
+   code id_token token).  Their release point is a function of the response type: idt_release_point rt = (id_token,
+   userinfo) exactly when rt is `id_token` alone (no access token will ever exist, OIDC Core 5.4), (id_token, none) - the
+   release point of the token endpoint's ID Tokens - otherwise.  Tied to the real authorization endpoint by
+   drv_C07.authz_endpoint_id_tokens: every ID Token found in an authorization response is decoded and compared, as a set,
+   with release_authz_idt for the response type that was asked for. ---- *)
+Theorem C07_id_token_alone_spec : forall rt,
+  id_token_alone rt = true <-> rt <> [] /\ forall w, In w rt -> w = W_id_token.
+Proof. exact id_token_alone_spec. Qed.
+Print Assumptions C07_id_token_alone_spec.
+
+Theorem C07_idt_release_point_alone : forall rt,
+  id_token_alone rt = true -> idt_release_point rt = (W_id_token, W_userinfo).
+Proof. exact idt_release_point_alone. Qed.
+Print Assumptions C07_idt_release_point_alone.
+
+Theorem C07_idt_release_point_not_alone : forall rt,
+  id_token_alone rt = false -> idt_release_point rt = idt_release_point_token_endpoint.
+Proof. exact idt_release_point_not_alone. Qed.
+Print Assumptions C07_idt_release_point_not_alone.
+
+(* any word other than id_token in the response type (code, token) makes the ID Token an id_token release only *)
+Theorem C07_other_word_not_alone : forall rt w, In w rt -> w <> W_id_token -> id_token_alone rt = false.
+Proof. exact other_word_not_alone. Qed.
+Print Assumptions C07_other_word_not_alone.
+
+(* for every response type other than `id_token` alone the ID Token of the authorization response is bounded by the
+   id_token rules: the client's always-add claims FOR id_token only, scope-derived claims only if the id_token switch
+   (the client's by_scope.id_token, else the handler's add_claims_by_scope) is on *)
+Theorem C07_authz_idt_bound_id_token_rules : forall pm m cl rt ts gs req ui k v,
+  id_token_alone rt = false ->
+  In (k, v) (release_authz_idt pm m cl rt (Some ts) gs req ui) ->
+  (In k (keys m.(m_base))
+   \/ ((cl = None \/ m.(m_per_client) = false) /\ In k (always_keys m.(m_always)))
+   \/ (exists c, cl = Some c /\ m.(m_per_client) = true /\ In k (always_at c W_id_token))
+   \/ (by_scope_rule m cl W_id_token = true /\ scope_claim pm cl ts k /\
+       exists s, In s ts /\ In s (match (match cl with Some c => c.(c_allowed_scopes) | None => None end) with
+                                  | Some a => a | None => List.map fst pm end))
+   \/ In k (keys req))
+  /\ assoc k ui = Some v /\ v <> VNone.
+Proof. exact authz_idt_bound_id_token_rules. Qed.
+Print Assumptions C07_authz_idt_bound_id_token_rules.
+
+(* what the client configured for other release points is irrelevant to such an ID Token ... *)
+Theorem C07_authz_idt_other_points_irrelevant : forall pm m c1 c2 rt ts gs req ui,
+  id_token_alone rt = false ->
+  by_scope_at c1 W_id_token = by_scope_at c2 W_id_token -> always_at c1 W_id_token = always_at c2 W_id_token ->
+  c_allowed_scopes c1 = c_allowed_scopes c2 -> c_scope_map c1 = c_scope_map c2 ->
+  release_authz_idt pm m (Some c1) rt ts gs req ui = release_authz_idt pm m (Some c2) rt ts gs req ui.
+Proof. exact authz_idt_other_points_irrelevant. Qed.
+Print Assumptions C07_authz_idt_other_points_irrelevant.
+
+(* ... in particular a userinfo-only configuration contributes nothing *)
+Theorem C07_authz_idt_userinfo_config_contributes_nothing : forall pm m c rt ts gs req ui,
+  id_token_alone rt = false ->
+  release_authz_idt pm m (Some c) rt ts gs req ui = release_authz_idt pm m (Some (without_point W_userinfo c)) rt ts gs req ui.
+Proof. exact authz_idt_userinfo_config_contributes_nothing. Qed.
+Print Assumptions C07_authz_idt_userinfo_config_contributes_nothing.
+
+(* response type `id_token` alone: id_token rules plus the client's userinfo entries, nothing of any other point *)
+Theorem C07_authz_idt_alone_bound : forall pm m cl rt ts gs req ui k v,
+  id_token_alone rt = true ->
+  In (k, v) (release_authz_idt pm m cl rt (Some ts) gs req ui) ->
+  (In k (keys m.(m_base))
+   \/ In k (always_keys m.(m_always))
+   \/ (exists c, cl = Some c /\ m.(m_per_client) = true /\ (In k (always_at c W_id_token) \/ In k (always_at c W_userinfo)))
+   \/ (scope_claim pm cl ts k /\
+       exists s, In s ts /\ In s (match (match cl with Some c => c.(c_allowed_scopes) | None => None end) with
+                                  | Some a => a | None => List.map fst pm end))
+   \/ In k (keys req))
+  /\ assoc k ui = Some v /\ v <> VNone.
+Proof. exact authz_idt_alone_bound. Qed.
+Print Assumptions C07_authz_idt_alone_bound.
+
+(* non-vacuity: per-client claims on, the client configures ONLY userinfo (always e-mail, scope-derived claims on), the ID
+   Token handler's own switch is off.  `id_token` alone: the ID Token is the userinfo release (e-mail twice over: always
+   and by scope).  code id_token / id_token token / code id_token token: nothing. *)
+Example C07_authz_idt_nonvacuous :
+  let m := mkModule [] false None true in
+  let cl := mkClient (Some [(PS "userinfo", true)]) [(PS "userinfo", [PS "name"])] (Some [PS "openid"; PS "email"]) None in
+  let sc := [PS "openid"; PS "email"] in
+  keys (release_authz_idt pm m (Some cl) [PS "id_token"] (Some sc) sc [] ui) = [PS "name"; PS "email"]
+  /\ release_authz_idt pm m (Some cl) [PS "code"; PS "id_token"] (Some sc) sc [] ui = []
+  /\ release_authz_idt pm m (Some cl) [PS "id_token"; PS "token"] (Some sc) sc [] ui = []
+  /\ release_authz_idt pm m (Some cl) [PS "token"; PS "id_token"; PS "code"] (Some sc) sc [] ui = [].
+Proof. vm_compute. repeat split; reflexivity. Qed.
+
 (* Tie to the source: Gen/Src_claims.v is the CURRENT idpyoidc.server.session.claims.claims_match, translated by
    harness/py2v.py on every run.  inject_spec is the Python value of a claim specification (None or the dict, in
    insertion order); spec_ok: an SOther item stands for a key other than "value" / "values" / "essential". *)
